@@ -95,7 +95,8 @@ def make_cases(chk, rng):
     # (block size 8 below 128, 16 below 256): the failure must be reported with the right index, never divided by
     for n in ([32, 33] + ([130, 257] if thorough else [])):
         bs = 8 if n < 128 else (16 if n < 256 else 32)
-        for kz in sorted({0, bs - 1, bs, bs + 1, 2 * bs, 3 * bs, n - 1} | ({5 * bs} if 5 * bs < n else set())):
+        kzs = {0, bs - 1, bs, bs + 1, 2 * bs, 3 * bs, n - 1} if n < 128 else ({0, bs - 1, bs, bs + 1, 2 * bs} if n < 256 else {0, bs})
+        for kz in sorted(kzs):
             if kz >= n:
                 continue
             for up in (0, 1):
